@@ -3,8 +3,14 @@
 use std::fs::{File, OpenOptions};
 use std::io::Write;
 use std::str::FromStr;
+#[cfg(not(humphrey_verif))]
 use std::sync::mpsc::Receiver;
+#[cfg(humphrey_verif)]
+use humsim::sync::mpsc::Receiver;
+#[cfg(not(humphrey_verif))]
 use std::sync::{Arc, Mutex};
+#[cfg(humphrey_verif)]
+use humsim::sync::{Arc, Mutex};
 
 use humphrey::http::date::DateTime;
 use humphrey::monitor::event::{Event, EventType, ToEventMask};
